@@ -14,6 +14,11 @@ package ledger
 //	         changes at the next rate refresh; the genesis pool only lasts two rounds)
 //	flush1 / flushMax / reload   as in C08
 //
+// plus two protocol-driven rewrites that need no op: genesis accounts F and G are online
+// with keys valid through rounds 2 and 4, are never touched, accumulate pending rewards
+// that cross a reward-unit boundary, and are taken offline by the ExpiredParticipationAccounts
+// list of blocks 3 and 5 (record rewritten without applying the pending rewards).
+//
 // Depth 4 with the whole alphabet and depth 5 without fundPool/flush1 (quick); 6 / 7
 // (thorough, time-capped); MaxAcctLookback 0 and 2.
 //
@@ -26,7 +31,9 @@ package ledger
 // class = the account's Status; RewardsLevel must equal the RewardsLevel of block r's header.
 // Rounds above latest must be refused. (Constancy of the grand total is C18, not asked here.)
 //
-// Not covered: concurrent Totals-vs-commit interleavings; rewards overflow paths.
+// Not covered: concurrent Totals-vs-commit interleavings; rewards overflow paths; absentee
+// suspension / heartbeat rewrites (payouts are off in the private consensus version); totals
+// installed by a catchpoint restore (catchupaccessor finishBalances - that is C16's domain).
 //
 // Mutants (bin/mut ... --only), outcomes:
 //  M1 totals.go DelAccount: reward units not subtracted for Online accounts       DETECTED (depth 2)
@@ -180,6 +187,9 @@ func (s *c12Sys) exec(op int) error {
 		en, err = true, s.h.Reload()
 	default:
 		en, err = s.h.AddBlock(s.txns(op)...)
+		if err == nil && en {
+			c12Expiries.Add(int64(len(s.h.LastBlock.ExpiredParticipationAccounts)))
+		}
 	}
 	if err == nil && !en {
 		err = ve.Violationf("C12:harness", "harness: op %s enabled in the shadow model but refused by the ledger/evaluator", c12OpNames[op])
@@ -210,6 +220,15 @@ func (s *c12Sys) materialize() error {
 			return s.bad
 		}
 		s.done++
+	}
+	// non-vacuity of the expiry path: from round 3 on F must have been taken offline by the
+	// protocol while it still carried pending rewards
+	if s.h.Latest() >= 3 {
+		f := s.h.ref[3].acct[c08Addr("F")]
+		if f.Status != basics.Offline || f.RewardsBase >= s.h.ref[3].rewardsLevel {
+			s.bad = ve.Violationf("C12:harness", "harness: account F was not expired with pending rewards in round 3 (status %v, rewards base %d, level %d)", f.Status, f.RewardsBase, s.h.ref[3].rewardsLevel)
+			return s.bad
+		}
 	}
 	cur := s.h.Cur()
 	_, cOK := cur.acct[s.w.C]
@@ -296,8 +315,25 @@ func c12Check(h *c08LH) error {
 	return nil
 }
 
+// c12Online is a genesis account that is online with participation keys valid through
+// round last only and that no transaction of the alphabet ever touches: while the rewards
+// level rises it carries pending rewards (balance x.999 Algos: the pending rewards cross a
+// whole reward unit), and the block after `last` lists it in ExpiredParticipationAccounts,
+// which rewrites the record (Online -> Offline) WITHOUT folding the pending rewards in.
+func c12Online(microAlgos uint64, last basics.Round, tag byte) basics.AccountData {
+	d := basics.AccountData{MicroAlgos: basics.MicroAlgos{Raw: microAlgos}, Status: basics.Online}
+	d.VoteID[0], d.SelectionID[0], d.StateProofID[0] = tag, tag, tag
+	d.VoteFirstValid, d.VoteLastValid, d.VoteKeyDilution = 0, last, 10
+	return d
+}
+
+// c12Expiries counts entries of ExpiredParticipationAccounts over all executed blocks (evidence).
+var c12Expiries atomic.Int64
+
 func c12World() (*c08World, error) {
 	return c08MakeWorld(map[basics.Address]basics.AccountData{
+		c08Addr("F"):    c12Online(1_500_999_000, 2, 7),
+		c08Addr("G"):    c12Online(2_500_999_500, 4, 8),
 		c08Addr("D"):    {MicroAlgos: basics.MicroAlgos{Raw: 2_000_300_000}, Status: basics.Offline},
 		c08Addr("E"):    {MicroAlgos: basics.MicroAlgos{Raw: 3_000_500_000}, Status: basics.Offline},
 		c08Addr("pool"): {MicroAlgos: basics.MicroAlgos{Raw: 12_600_000}, Status: basics.NotParticipating},
@@ -373,6 +409,7 @@ func TestVerif_C12(t *testing.T) {
 		r.Note("time budget exhausted; explorations not run: %v", skipped)
 	}
 	r.Set("lookups_compared", queries.Load())
+	r.Set("protocol_expiries_executed", c12Expiries.Load())
 	cov.Rule = fmt.Sprintf("BFS over all sequences (depth <= %d) of the money/status block alphabet {pay-to-small-account, close, keyreg online, keyreg offline, keyreg non-participating, pay-from-(on|off)line-account, fund-rewards-pool} and flush-one-round / flush-max / reloadLedger, MaxAcctLookback 0 and 2; after every step, for every round in [tracker DB round, latest], Totals(round) is compared field by field with the sums of LookupAccount(round, a) over all addresses ever seen; evaluations = transitions executed; a distinct class = a distinct implementation state (block history, flush boundaries, in-memory delta/cache bookkeeping)", maxDepth)
 	r.Assume("LookupAccount is taken as the per-account truth (its agreement with the block history is C08)")
 	r.Assume("tracker flushes are executed synchronously (trackerRegistry.commitRound on the calling goroutine); concurrent interleavings are not covered")
